@@ -533,38 +533,52 @@ class Monitor:
         if tier == "thorough":
             rng = random.Random("%s/c08/uri/%d" % (seed, part))
             strings = itertools.chain(strings, self.random_uris(rng, 1600000 // parts))
+        modes4 = [(strict, empty, kw, "%s-%s" % ("strict" if strict else "loose", empty)) for strict, empty, kw in modes]
+        uri_judge, check, allowed = G.uri_judge, M.check_or_raise_uri, self.allowed
+        n_judged = n_rej = n_acc = n_over = 0
+        rej_classes, over_examples = set(), set()
         for s in strings:
             if len(s) > maxlen:
                 R.count("uri_random_strings")
-            for strict, empty, kw in modes:
-                R.count("evaluations")
-                R.count("uri_strings_judged")
-                verdict, icls = G.uri_judge(s, strict, empty)
-                mode = "%s-%s" % ("strict" if strict else "loose", empty)
+            for strict, empty, kw, mode in modes4:
+                n_judged += 1
+                verdict, icls = uri_judge(s, strict, empty)
                 try:
-                    M.check_or_raise_uri(s, "t", **kw)
+                    check(s, "t", **kw)
                     acc = True
-                except self.allowed:
+                except allowed:
                     acc = False
                 except Exception as e:
                     R.violation("C08/check_or_raise_uri/%s/%s" % (mode, type(e).__name__),
                                 "check_or_raise_uri(%r, %s) raised %r" % (s, kw, e), {"uri": s},
                                 {"kind": "uri", "uri": s, "kw": kw})
                     continue
-                if acc and verdict == "reject":
-                    R.violation("C08/check_or_raise_uri/%s/accepted-%s" % (mode, icls),
-                                "check_or_raise_uri(%r, %s) accepts a string the URI grammar of this mode forbids (%s)" % (s, kw, icls),
-                                {"uri": s, "mode": mode}, {"kind": "uri", "uri": s, "kw": kw})
-                elif not acc and verdict == "reject":
-                    R.count("uri_rejections_agreed")
-                    R.seen("uri_reject_classes", "%s|%s" % (mode, icls))
+                if verdict == "reject":
+                    if acc:
+                        R.violation("C08/check_or_raise_uri/%s/accepted-%s" % (mode, icls),
+                                    "check_or_raise_uri(%r, %s) accepts a string the URI grammar of this mode forbids (%s)" % (s, kw, icls),
+                                    {"uri": s, "mode": mode}, {"kind": "uri", "uri": s, "kw": kw})
+                    else:
+                        n_rej += 1
+                        rej_classes.add((mode, icls))
                 elif acc:
-                    R.count("uri_accepted_agreed")
+                    n_acc += 1
                 elif verdict == "ok":
-                    R.count("uri_overstrict")     # not claimed by the property; counted only
-                    R.seen("uri_overstrict_examples", s[:12])
+                    n_over += 1     # over-strictness is not claimed by the property; counted only
+                    if len(over_examples) < 200:
+                        over_examples.add(s[:12])
             if len(s) <= 4 or len(s) > maxlen:
                 self.nt("uri|" + s)
+        R.count("evaluations", n_judged)
+        R.count("uri_strings_judged", n_judged)
+        R.count("uri_rejections_agreed", n_rej)
+        R.count("uri_accepted_agreed", n_acc)
+        if n_over:
+            R.count("uri_overstrict", n_over)
+        for mode, icls in rej_classes:
+            R.seen("uri_reject_classes", "%s|%s" % (mode, icls))
+        for ex in over_examples:
+            R.seen("uri_overstrict_examples", ex)
         # through parse() at every kind of URI position, shorter strings
         targets = [
             ("Call", lambda u: [48, 5, {}, u]), ("Publish", lambda u: [16, 5, {}, u]), ("Abort", lambda u: [3, {}, u]),
@@ -948,7 +962,8 @@ class Monitor:
     def pair_corpus(self):
         c = [("null", None), ("true", True), ("0", 0), ("1", 1), ("-1", -1), ("2^53+1", 2 ** 53 + 1), ("1.5", 1.5), ("str-empty", ""),
              ("str-a", "a"), ("str-a..b", "a..b"), ("str-nl", "a.b\n"), ("str-cryptobox", "cryptobox"), ("bytes-empty", b""), ("bytes", b"ab"),
-             ("list-empty", []), ("list-1", [1]), ("dict-empty", {}), ("dict-a1", {"a": 1})]
+             ("list-empty", []), ("list-1", [1]), ("dict-empty", {}), ("dict-a1", {"a": 1}), ("false", False), ("2^53", 2 ** 53), ("0.0", 0.0),
+             ("str-a.b", "a.b"), ("str-x_", "x_"), ("list-dict", [{}]), ("dict-int-key", {1: 2})]
         if "ndarray2" in G.EXOTIC:
             c.append(("ndarray2", G.EXOTIC["ndarray2"]))
         return c
@@ -1009,11 +1024,30 @@ class Monitor:
                                 continue
                             R.count("pair_cases")
                             self.parse_case(spec, w, "pair:%s=%s,%s=%s" % (pname(p1), l1, pname(p2), l2), sname)
+                # triples inside the payload-transparency unit (enc_algo, enc_key, enc_serializer, payload position)
+                if spec.payload and sname == "payload":
+                    unit_places = [("opt", "enc_algo"), ("opt", "enc_key"), ("opt", "enc_serializer"), ("pos", len(wire) - 1)]
+                    small = PC[:20]
+                    for trio in itertools.combinations(unit_places, 3):
+                        for combo in itertools.product(small + [("absent", G.ABSENT)], repeat=3):
+                            n += 1
+                            if n % parts != part:
+                                continue
+                            w = wire
+                            for p, (lab, v) in zip(trio, combo):
+                                if v is G.ABSENT and p[0] == "pos":
+                                    w = None
+                                    break
+                                w = self.put(spec, w, p, v)
+                            if w is None:
+                                continue
+                            R.count("triple_cases")
+                            self.parse_case(spec, w, "triple:" + ",".join("%s=%s" % (pname(p), lv[0]) for p, lv in zip(trio, combo)), sname)
                 R.seen("pair_classes", spec.name)
         # random multi-place replacements (2..5 places at once, full corpus incl. nested corruptions), own stream per shard
         rng = random.Random("%s/c08/multi/%d" % (seed, part))
         CORPUS = corpus()
-        per_shard = 900000 // parts
+        per_shard = 2400000 // parts
         specs = list(G.SPECS)
         sk = {s.name: skeletons(s) for s in specs}
         for k in range(per_shard):
@@ -1123,7 +1157,14 @@ class Monitor:
             out.append((place[1], chunk[:i], chunk[i + len(ph):]))
         return out
 
-    def mutants(self, data, rng, unit, part, parts, openers):
+    GRID = {
+        "json": b'[]{}",:\\0 9-.\x18\x00\xfftn',
+        "msgpack": bytes([0x00, 0x7f, 0x80, 0x8f, 0x90, 0x9f, 0xa0, 0xbf, 0xc0, 0xc1, 0xc4, 0xc7, 0xcf, 0xd3, 0xd9, 0xdc, 0xde, 0xff]),
+        "cbor": bytes([0x00, 0x17, 0x18, 0x1b, 0x20, 0x40, 0x5f, 0x60, 0x7f, 0x80, 0x9f, 0xa0, 0xbf, 0xc2, 0xd8, 0xf6, 0xf7, 0xff]),
+        "ubjson": b"[]{}$#SUilLZTFNCHdB\x00\xff",
+    }
+
+    def mutants(self, data, rng, unit, part, parts, openers, grid=b""):
         """Every offset i with (unit + i) % parts == part: all 255 replacement values, truncation, deletions, insertions,
         swap, duplication, and 2-offset mutations."""
         L = len(data)
@@ -1145,6 +1186,10 @@ class Monitor:
             yield "dup", data[:i] + data[i:i + 4] + data[i:]
             if i + 1 < L:
                 yield "swap", data[:i] + bytes([data[i + 1], c]) + data[i + 2:]
+                for a in grid:          # two ADJACENT octets (type marker + length / count, delimiter pairs) over the format's structural bytes
+                    for b in grid:
+                        if a != c and b != data[i + 1]:
+                            yield "adjacent", data[:i] + bytes([a, b]) + data[i + 2:]
             for _ in range(6):
                 j = rng.randrange(L)
                 if j != i:
@@ -1161,6 +1206,26 @@ class Monitor:
             for sname, wire in skeletons(spec):
                 if sname in ("minimal", "full", "payload", "full+args+kwargs", "revocation", "wildcard"):
                     bases.append((spec, sname, wire))
+        rich_args = [0, -1, 255, 256, -129, 65536, 2 ** 32, -2 ** 31 - 1, 2 ** 53, 1.5, -0.0, 1e300, True, None, "", "a" * 32, "é" * 130, "\U0001f600",
+                     b"", b"\x00\xff" * 20, [], [[], [1, [2, [3]]]], {}, {"k": {"n": [None, {"z": b"x"}]}}]
+        rich_kwargs = {"a": 1, "é": "ü", "k" * 40: [1, 2.5, "s"], "n": None, "b": b"\x01", "d": {"x": {"y": []}}}
+        for cname, wire in (
+                ("Call", [48, 2 ** 53, {"timeout": 2 ** 31, "receive_progress": True, "caller": 2 ** 53, "caller_authid": "é" * 40, "caller_authrole": "r",
+                                        "forward_for": [{"session": 1, "authid": None, "authrole": "a"}, {"session": 2 ** 53, "authid": "b" * 300, "authrole": "r"}]},
+                          "com.example." + "x" * 300, rich_args, rich_kwargs]),
+                ("Publish", [16, 7, {"acknowledge": True, "exclude_me": False, "exclude": list(range(0, 40)) + [2 ** 53], "exclude_authid": ["a", "é" * 20],
+                                     "eligible": [2 ** 32], "eligible_authrole": ["r" * 33], "retain": True}, "a.b", rich_args, rich_kwargs]),
+                ("Event", [36, 2 ** 32, 2 ** 16, {"publisher": 2 ** 53, "publisher_authid": "joe", "topic": "com.example.t", "retained": True,
+                                                  "x_acknowledged_delivery": True, "enc_algo": "cryptobox", "enc_key": "k" * 64, "enc_serializer": "cbor"},
+                           bytes(range(256)) * 2]),
+                ("Welcome", [2, 2 ** 53, {"roles": {r: {"features": {f: (i % 2 == 0) for i, f in enumerate(G.FEATURES[r])}} for r in ("broker", "dealer")},
+                                          "realm": "realm1", "authid": "é" * 64, "authrole": "user", "authmethod": "wampcra", "authprovider": "static",
+                                          "authextra": {"nested": {"a": [1, b"\x01", 2.5, None]}, "x": "y" * 256}, "x_custom_attr": {"k": [1]}}]),
+                ("Error", [8, 48, 5, {"callee": 1, "callee_authid": "a", "callee_authrole": "r"}, "wamp.error.runtime_error", rich_args, rich_kwargs]),
+                ("Hello", [1, "com.example.realm", {"roles": {r: {"features": {f: True for f in G.FEATURES[r]}} for r in ("subscriber", "publisher", "caller", "callee")},
+                                                    "authmethods": ["anonymous", "ticket", "wampcra", "cryptosign", "scram"], "authid": "joe",
+                                                    "authextra": {"pubkey": "ab" * 32, "channel_binding": None}, "resumable": True}])):
+            bases.append((G.BY_NAME[cname], "rich", wire))
         OPEN = {"json": [b"[", b"{", b'"', b","], "msgpack": [b"\x91", b"\x81", b"\xdc\x00\x01", b"\xc4\x01"], "cbor": [b"\x81", b"\xa1", b"\x9f", b"\xd8\x1c"],
                 "ubjson": [b"[", b"{", b"[$U#U\x01", b"S"]}
         unit = 0
@@ -1177,7 +1242,7 @@ class Monitor:
                     R.count("lib_encode_failed")
                     continue
                 k = 0
-                for kind, mdata in self.mutants(data, rng, unit, part, parts, OPEN[base]):
+                for kind, mdata in self.mutants(data, rng, unit, part, parts, OPEN[base], self.GRID[base]):
                     k += 1
                     self.unser_case(sid, ser, batched, mdata, "mutation-%s@%s/%s" % (kind, spec.name, sname))
                 R.count("mutations_of_valid_encodings", k)
@@ -1249,10 +1314,11 @@ class Monitor:
             inner = {"json": b"1", "msgpack": b"\x01", "cbor": b"\x01", "ubjson": b"i\x01"}[base]
             mopen = {"json": b'{"a":', "msgpack": b"\x81\xa1a", "cbor": b"\xa1\x61a", "ubjson": b"{i\x01a"}[base]
             mclose = {"json": b"}", "msgpack": b"", "cbor": b"", "ubjson": b"}"}[base]
-            depths = sorted(set(list(range(1, 40)) + list(range(40, 1200, 7)) + list(range(480, 530)) + list(range(900, 1100)) + [2000, 5000, 20000, 200000, 1000000]))
-            sites = self.splice_sites(base, G.BY_NAME["Call"], [48, 5, {"x_unknown": 1}, "com.example.a1", [1], {"k": 1}])
+            # (decoding a deep value costs milliseconds in the pure-Python JSON scanner / bjdata decoder: a sweep, not every depth)
+            depths = sorted(set(list(range(1, 12)) + list(range(12, 1200, 37)) + list(range(960, 1012, 2)) + [2000, 5000, 20000, 200000, 1000000]))
+            call = [48, 5, {"x_unknown": 1}, "com.example.a1", [1], {"k": 1}]
+            sites = [st for st in self.splice_sites(base, G.BY_NAME["Call"], call) if st[0] in (2, 4, 5)]       # options dict, args, kwargs
             sites += self.splice_sites(base, G.BY_NAME["Challenge"], [4, "ticket", {"k": 1}])[-1:]
-            sites += self.splice_sites(base, G.BY_NAME["Hello"], [1, "realm1", {"roles": {"caller": {}}, "authextra": {"k": 1}}])[-1:]
             for depth in depths:
                 unit += 1
                 if unit % parts != part:
@@ -1268,7 +1334,7 @@ class Monitor:
                             self.unser_case(sid, ser, batched, G.lib_frame(base, [pre + item + suf], batched), "nesting-%s-%d@%s" % (lab, depth, where))
             # D3+: random octets, several streams ("seeds' worth"), many lengths; token noise incl. the raw constructs
             tokens = [c[1] for c in constructs if len(c[1]) <= 24] + OPEN[base] + [closer or b"\x00", inner]
-            for stream in range(6):
+            for stream in range(8):
                 srng = random.Random("%s/c08/noise/%s/%d/%d" % (seed, sid, stream, part))
                 for _ in range(180000 // parts):
                     r = srng.random()
@@ -1282,6 +1348,8 @@ class Monitor:
                         spec, sname, wire = srng.choice(bases)      # valid message with a few random byte edits
                         m = bytearray(G.lib_encode(base, wire))
                         for _e in range(srng.randint(2, 5)):
+                            if not m:
+                                break
                             op = srng.random()
                             pos = srng.randrange(len(m))
                             if op < 0.6:
@@ -1342,14 +1410,14 @@ class Monitor:
                         for b in range(256):
                             if b != data[i]:
                                 self.fbs_case(ser, sid, data[:i] + bytes([b]) + data[i + 1:], "mutation@%s/%s" % (spec.name, sname))
-                        for _k in range(12):
+                        for _k in range(60):
                             m = bytearray(data)
                             m[i] = rng.choice((0x00, 0xff, 0x7f, 0x80, data[i] ^ 0x01, rng.randrange(256)))
                             j = rng.randrange(len(data))
                             m[j] = rng.choice((0x00, 0xff, 0x7f, 0x80, data[j] ^ 0x01, rng.randrange(256)))
                             self.fbs_case(ser, sid, bytes(m), "mutation2@%s/%s" % (spec.name, sname))
                         if i + 4 <= len(data):      # 32-bit offsets / vtable entries are the structure of the format
-                            for v in (0, 1, 4, len(data) - 1, len(data), len(data) + 1, 0x7fffffff, 0x80000000, 0xffffffff, 0xfffffffc):
+                            for v in (0, 1, 2, 3, 4, 8, 12, 16, i, len(data) - i, len(data) - 4, len(data) - 1, len(data), len(data) + 1, 2 * len(data), 0xffff, 0x10000, 0x7fffffff, 0x80000000, 0xffffffff, 0xfffffffc, 0xfffffff0, -i, -4):
                                 self.fbs_case(ser, sid, data[:i] + (v & 0xffffffff).to_bytes(4, "little") + data[i + 4:], "offset32@%s/%s" % (spec.name, sname))
                     continue
                 muts = [data]
